@@ -5,6 +5,7 @@ import (
 	"crypto/sha256"
 	"encoding/hex"
 	"encoding/json"
+	"errors"
 	"fmt"
 	"os"
 	"os/exec"
@@ -80,7 +81,7 @@ func runWorker(sp *spec, bin string, j workerJob) (*result, error) {
 	cctx, ccancel := context.WithTimeout(context.Background(), limit)
 	defer ccancel()
 	cmd := exec.CommandContext(cctx, "/bin/sh", "-c", sh)
-	cmd.WaitDelay = 5 * time.Second
+	cmd.WaitDelay = 30 * time.Second
 	cmd.Dir = j.Scratch
 	scen := make([]string, len(j.Scen))
 	for i, s := range j.Scen {
@@ -99,6 +100,11 @@ func runWorker(sp *spec, bin string, j workerJob) (*result, error) {
 	}
 	cmd.Env = env
 	outb, err := cmd.CombinedOutput()
+	if errors.Is(err, exec.ErrWaitDelay) {
+		// the worker has exited with status 0 and only its output pipe was slow to drain (a machine under heavy load): its
+		// result file decides
+		err = nil
+	}
 	if cctx.Err() != nil {
 		return nil, fmt.Errorf("worker exceeded its hard wall-clock limit of %v and was killed (scenarios %v)\n%s", limit, j.Scen, tail(outb, 3000))
 	}
